@@ -227,8 +227,10 @@ def run_session(case, backend, seed):
             continue
         o.n_markers = a.count("SubqueryMarker")
         obs.append((key, o))
+    kinds = {p["id"]: p.get("kind", "?") for p in case.get("late_pipes", [])}
+    failed_kinds = collections.Counter(f"{kinds.get(pid, 'main')}:{exc}" for pid, (exc, msg, at) in A.out.failed.items())
     return fails, obs, {"tables_compared": compared, "actions": len(A.log), "probes_failed": len(A.out.failed),
-                        "tracked_objects": len(A.objs)}
+                        "tracked_objects": len(A.objs), "failed_kinds": failed_kinds}
 
 
 def eval_safe(s):
@@ -271,6 +273,7 @@ def run(ctx, res):
         seeds.append(r.randrange(10 ** 6))
         origin.append(f"gen:{ctx.seed + 1000}:{i}")
     stats = collections.Counter()
+    probe_failures = collections.Counter()       # by probe kind and exception class: a kind that always fails is a hole
     pseudo_cases, pseudo_obs, pseudo_src = [], [], []
     reported = 0
     seen = set()
@@ -291,6 +294,8 @@ def run(ctx, res):
                                            "payload": {"correspondence": "C10 session", "case": c, "backend": b, "session_seed": sd}})
                 continue
             stats[f"{b}:sessions"] += 1
+            for fk, v in st.pop("failed_kinds").items():
+                probe_failures[f"{b}:{fk}"] += v
             for k, v in st.items():
                 stats[f"{b}:{k}"] += v
             for key, o in obs:
@@ -358,6 +363,7 @@ def run(ctx, res):
     cov["evaluations"] = sum(v for k, v in stats.items() if k.endswith(":tables_compared")) + len(verdicts)
     cov["distinct_nontrivial"] = len({pipeprop.case_key(c) for c in cases})
     cov["sessions"] = dict(stats)
+    cov["probe_failures_by_kind"] = dict(probe_failures)
     cov["probe_kinds"] = dict(collections.Counter(p.get("kind", "?") for c in cases for p in c.get("late_pipes", [])))
     cov["partial"] = ["the frame theorems cover Cache.update, preprocess_arg, the verb front ends, check_subquery and the "
                       "tree-rewriting methods (calls not followed: verified-in-the-same-run or trusted names); the clones made by "
